@@ -5,7 +5,7 @@ META = dict(
     engine="seq", level="model_checking",
     technique="explicit-state BFS over explicit/automatic creations, registry clears, house and frame-registry switches and framer clones on the real registrar classes vs a reference namespace model; random.randint of the collision loop is a choice point",
     text="Histories over: create House / Store / Tasker / Framer / Logger / Log / Frame with an explicit name (plain names and names matching the automatic "
-         "pattern such as Tasker2, Tasker2a) or an automatic name, Clear of each root registry and ClearRegistries, House.assignRegistries of each house, "
+         "pattern such as Tasker2, Tasker3, Tasker3a) or an automatic name, Clear of each root registry and ClearRegistries, House.assignRegistries of each house, "
          "Framer.assignFrameRegistry, Framer.clone.  ioflo.base.registering.random is replaced by a harness object, so every answer of the automatic-name collision loop "
          "(letters a/b for up to three draws) is enumerated.  After every operation all registries (class-level, per house, per framer) are compared with a reference "
          "model of namespaces: explicit duplicates rejected with nothing changed, automatic names fresh, instances land in the namespace that is current and nowhere else.",
@@ -25,11 +25,11 @@ KEYS = ("house", "store", "tasker", "log", "frame")
 EXPL = dict(
     House=[None, "h", "House2"],
     Store=[None, "x", "Store2"],
-    Tasker=[None, "x", "Tasker2", "Tasker2a", "Framer2"],
+    Tasker=[None, "x", "Tasker2", "Tasker3", "Tasker3a", "Framer2"],
     Framer=[None, "x", "Framer2", "Tasker2"],
     Logger=[None, "x"],
-    Log=[None, "x", "Log2", "Log2a"],
-    Frame=[None, "x", "Frame2", "Frame2a"],
+    Log=[None, "x", "Log2"],
+    Frame=[None, "x", "Frame2", "Frame3", "Frame3a"],
 )
 FAMILY = dict(House="house", Store="store", Tasker="tasker", Framer="tasker", Logger="tasker", Log="log", Frame="frame")
 
@@ -56,9 +56,14 @@ class ReplayRandom:
         return v
 
 
+_MODS = []
+
+
 def mods():
-    from ioflo.base import registering, housing, tasking, framing, logging, storing, excepting
-    return registering, housing, tasking, framing, logging, storing, excepting
+    if not _MODS:
+        from ioflo.base import registering, housing, tasking, framing, logging, storing, excepting
+        _MODS.append((registering, housing, tasking, framing, logging, storing, excepting))
+    return _MODS[0]
 
 
 def reset():
@@ -111,7 +116,9 @@ class Run:
         for i, op in enumerate(history):
             if self.diverged:
                 break
-            self.step(op, chooser if i == len(history) - 1 else None)
+            last = i == len(history) - 1
+            # registries of every proper prefix were compared when that prefix was itself a BFS target
+            self.step(op, chooser if last else None, compare=last)
 
     # ---------- bookkeeping
     def reg(self, obj, kind, key, name_expected=None):
@@ -199,7 +206,7 @@ class Run:
         return tuple(parts)
 
     # ---------- one operation on the real classes and on the model
-    def step(self, op, chooser=None):
+    def step(self, op, chooser=None, compare=True):
         registering, housing, tasking, framing, logging, storing, excepting = mods()
         m = self.m
         kind = op[0]
@@ -314,6 +321,8 @@ class Run:
             self.diverged = ("%s|%s-but-reference-%s" % (op_group(op), got.split(":")[0], exp),
                              "%s: ioflo answered %s, reference expects %s" % (op_str(op), got, exp))
             return
+        if not compare:
+            return
         rv, mv = self.real_view(), self.model_view()
         if rv != mv:
             bad = sorted(k for k in rv if rv[k] != mv.get(k))
@@ -355,17 +364,20 @@ def hist_str(h):
     return " ; ".join(op_str(o) for o in h)
 
 
-def base_ops(run):
+def base_ops(run, final=False):
+    """final: operations applied at the last BFS layer -- creations and clones only (Clear/assign as the very last
+    operation of a history add no information beyond the same operation met one layer earlier)."""
     ops = []
     if len(run.houses) < MAX_HOUSES:
         for n in EXPL["House"]:
             ops.append(("new", "House", n, None, ()))
-    for hi in run.houses:
-        ops.append(("assign", hi))
-    for key in KEYS:
-        ops.append(("clear", key))
-    ops.append(("clearall",))
-    for c in ("Tasker", "Logger", "Log", "Store", "Frame"):
+    if not final:
+        for hi in run.houses:
+            ops.append(("assign", hi))
+        for key in KEYS:
+            ops.append(("clear", key))
+        ops.append(("clearall",))
+    for c in ("Tasker", "Log", "Store", "Frame") if QUICK else ("Tasker", "Logger", "Log", "Store", "Frame"):
         for n in EXPL[c]:
             ops.append(("new", c, n, None, ()))
     if run.houses and len(run.framers) < MAX_FRAMERS:
@@ -373,7 +385,8 @@ def base_ops(run):
             for n in EXPL["Framer"]:
                 ops.append(("new", "Framer", n, hi, ()))
     for fi in run.framers:
-        ops.append(("assignframe", fi))
+        if not final:
+            ops.append(("assignframe", fi))
         if len(run.framers) < MAX_FRAMERS + 1:
             for n in ("c", "x"):
                 ops.append(("clone", fi, n))
@@ -414,7 +427,7 @@ def work(first):
         if run.diverged:
             return []
         out = []
-        for op in base_ops(run):
+        for op in base_ops(run, final=(len(history) - 1 == MAX_DEPTH - 1)):
             out.extend(expand_random(history, op, p.notes))
         return out
 
@@ -564,6 +577,9 @@ def run():
     counters = core.Part().notes
     for op in base_ops(probe):
         firsts.extend(expand_random([], op, counters))
+    import gc
+    gc.collect()
+    gc.freeze()          # keep forked workers from copying the parent's heap page by page
     parts = core.pmap(work, firsts, procs=min(core.NPROC, 8) if QUICK else None)
     best = {}
     for si, p in enumerate(parts):
@@ -591,7 +607,7 @@ def run():
     ck.merge(pparts)
     for v in sorted(pv, key=lambda v: (len(v[3].get("program", "")) if isinstance(v[3], dict) else 0, v[1])):
         ck.part.violation(*v)
-    ck.coverage_extra = dict(first_operations=len(firsts), max_depth_after_first=MAX_DEPTH, programs=len(grid),
+    ck.coverage_extra = dict(all_outcomes=dict(sorted(ck.part.outcomes.items())), first_operations=len(firsts), max_depth_after_first=MAX_DEPTH, programs=len(grid),
                              explicit_names=EXPL, randint_draws_enumerated=RCAP, randint_answers=[0, 1])
     ck.assumptions = [
         "Clear() starts a fresh class-level namespace (it rebinds the class registry); a house's own registry is untouched and becomes current again on assignRegistries()",
